@@ -121,6 +121,8 @@ def replay(path):
                 return 0 if res[0]["sqli"] else 1
             if kind == "sqli.c14":
                 return 1 if res[0]["sqli"] else 0
+            if kind == "sqli.c08" and isinstance(rp.get("spec"), list) and rp["spec"] and isinstance(rp["spec"][0], list):
+                return 1 if res[0]["sqli"] and res[0]["fp"] not in rp["spec"] else 0
             if kind == "sqli.pair":
                 return 1 if (res[0]["sqli"], res[0]["fp"]) != (res[1]["sqli"], res[1]["fp"]) else 0
             return 1
